@@ -60,5 +60,13 @@ Theorem C09_code_attach_removed_identity : forall k v h func,
   AttachCode.exec_attach (AttachCode.a_attach Attach.code) true k v h func None = Some (h, func) /\
   AttachCode.exec_attach (AttachCode.a_attach_has Attach.code) true k v h func None = Some (h, func).
 Proof. exact AttachRefine.exec_attach_removed. Qed.
+(* REFUTED at full strength ("a contract object applied to several functions behaves on each of them as a fresh contract"): finding
+   C09-F1, for every heap -- the validator object names the function it was attached to LAST (validator.function is one slot), so on the
+   first function a `_`-form validator binds with the wrong signature and a violation error names the wrong origin (C12-F1) *)
+Theorem C09_shared_validator_function_overwritten_refuted : forall k v h f g,
+  nlookup v (h_vfun (fst (attach k v (fst (attach k v h f)) g)))
+  = Some (r_func (get_reg (fst (ensure_wrapped (fst (attach k v h f)) g)) (snd (ensure_wrapped (fst (attach k v h f)) g)))).
+Proof. exact AttachRefine.second_attach_forgets_the_first. Qed.
+Print Assumptions C09_shared_validator_function_overwritten_refuted.
 Print Assumptions C09_code_attach_refines_model.
 Print Assumptions C09_code_attach_has_refines_model.
